@@ -447,6 +447,25 @@ impl G {
             17 | 18 => {
                 let e = if self.r.chance(1, 10) { self.expr(1) } else { self.simple_var() };
                 out.push_str(&format!("{}switch ({}) {{\n", ind, e));
+                if self.r.chance(1, 10) {
+                    // counts beyond the usual: a long run of labels sharing one body, or very many cases
+                    let run = *self.pick(&[7u64, 8, 9, 12, 17, 33, 64, 130]);
+                    let first = self.r.below(4);
+                    let step = 1 + self.r.below(3);
+                    let mut labels = String::new();
+                    for k in 0..run {
+                        labels.push_str(&format!("case {}: ", first + k * step));
+                    }
+                    if self.r.chance(1, 2) {
+                        out.push_str(&format!("{}  {}\n{}    acc++;\n{}    break;\n", ind, labels, ind, ind));
+                    } else {
+                        for k in 0..run {
+                            out.push_str(&format!("{}  case {}: acc = {}; break;\n", ind, first + k * step, k & 255));
+                        }
+                    }
+                    out.push_str(&format!("{}  default: acc--;\n{}}}\n", ind, ind));
+                    return;
+                }
                 let ncases = self.r.below(5);
                 let mut used = Vec::new();
                 // the grammar wants `default` last
@@ -822,7 +841,7 @@ pub fn big(seed: u64) -> Program {
         }
         5 => {
             // macros with many parameters, several of them (the preprocessor compiles them into one regex set)
-            let (k, n) = *r.pick(&[(1u64, 100u64), (2, 120), (1, 127), (1, 128), (1, 300), (1, 900), (2, 1000), (17, 110), (40, 50), (60, 22)]);
+            let (k, n) = *r.pick(&[(1u64, 100u64), (2, 120), (1, 127), (1, 128), (1, 300), (1, 900), (2, 1000), (10, 110), (16, 50)]);
             for j in 0..k {
                 let ps: Vec<String> = (0..n).map(|i| format!("p{}", i)).collect();
                 out.push_str(&format!("#define M{}({}) (p0 + p{})\n", j, ps.join(","), n - 1));
